@@ -185,6 +185,10 @@ func runList(list []SCall, env *Env, rt *roundTypes, alone bool) *gorun {
 			if strings.HasPrefix(sc.Call.Op, "sen.") && !strings.HasSuffix(sc.Call.Op, ".opt") {
 				checkSen()
 			}
+			if alone {
+				// "run alone": nothing another call did to a shared expression, script or options value can show
+				pool.env = NewEnv()
+			}
 			o = pool.Exec(&sc.Call)
 			if sc.Call.Op == "sen.Bytes" {
 				senBuf = append(senBuf, pending{i, o.Live, o.LiveText})
@@ -238,6 +242,7 @@ func (g *gorun) finalCheck(list []SCall) {
 func (run *Run) StressRound(seed uint64, round, goroutines, calls int, withSenBytes bool, emit func(lib.Finding)) int {
 	lists := GenLists(seed, round, goroutines, calls, withSenBytes)
 	env := NewEnv()
+	envBefore := env.EnvPrint()
 	rt := newRoundTypes(6)
 	conc := make([]*gorun, goroutines)
 	var wg sync.WaitGroup
@@ -254,6 +259,12 @@ func (run *Run) StressRound(seed uint64, round, goroutines, calls int, withSenBy
 	wg.Wait()
 	for g := range conc {
 		conc[g].finalCheck(lists[g])
+	}
+	// what the goroutines shared must be as it was (fingerprints include unexported fields)
+	for _, d := range envDiff(envBefore, env.EnvPrint()) {
+		emit(lib.Finding{Kind: "violation", Class: "shared-value-written:stress:" + strings.Fields(d)[0],
+			What:   "after the concurrent phase a value the goroutines shared is not what it was: " + d,
+			Replay: map[string]any{"seed": seed, "round": round, "goroutines": goroutines, "calls": calls, "sen_bytes": withSenBytes}})
 	}
 	evals := 0
 	for g := 0; g < goroutines; g++ {
@@ -539,6 +550,10 @@ func (run *Run) RunC08(self, knownPath string) {
 	// the deterministic parts run here: what they find must not be lost when the stress process dies
 	n := run.RegistryClosure(emit)
 	rep.AddEval(int64(n), int64(n))
+	n = run.SharedUntouched(emit)
+	rep.AddEval(int64(n), int64(n))
+	n = run.OverlapAfterFailure(emit)
+	rep.AddEval(int64(n), int64(n))
 	n = run.Witness(emit)
 	rep.AddEval(int64(n), 4)
 	tmp := filepath.Join(run.Verif, ".build", fmt.Sprintf("c08_child_%d.json", os.Getpid()))
@@ -629,6 +644,10 @@ func (run *Run) ReplayC08(path string) error {
 		run.Witness(emit)
 	case "registry-closure":
 		run.RegistryClosure(emit)
+	case "shared-untouched":
+		run.SharedUntouched(emit)
+	case "overlap-after-failure":
+		run.OverlapAfterFailure(emit)
 	case "race":
 		run.RaceStep(emit)
 	default:
